@@ -1529,7 +1529,7 @@ def order_constraint(facts, fn, site, const):
     return frozenset(allowed), n
 
 
-def predicate_atoms(sw, fn=None, rich=False):
+def predicate_atoms(sw, fn=None, rich=False, only=None):
     """what a switch tests, as coarse atoms: 'call:<fn>' for the outermost h2 call, 'field:<name>' for a field read;
     std adaptor calls (Option::take, as_ref, Deref ...) are looked through.  rich=True also names argument positions,
     integer constants, captured variables and (by type) multiply-assigned locals, so `n != 0 && n < 256` has atoms"""
@@ -1574,6 +1574,9 @@ def predicate_atoms(sw, fn=None, rich=False):
             leaf(x[3])
         elif x[0] in ('un', 'cast', 'discr', 'variant'):
             leaf(x[1] if x[0] != 'un' else x[2])
+    if only is not None:
+        leaf(only)
+        return out
     c = cmp_of(sw)
     if c is not None:
         leaf(c[1])
@@ -1581,6 +1584,42 @@ def predicate_atoms(sw, fn=None, rich=False):
     else:
         leaf(sw.subject)
     return out
+
+
+_REGION_NAME = {frozenset(['eq']): 'eq', frozenset(['lt', 'gt']): 'ne', frozenset(['lt']): 'lt', frozenset(['gt']): 'gt',
+                frozenset(['lt', 'eq']): 'le', frozenset(['gt', 'eq']): 'ge'}
+
+
+def edge_polarity(sw, succs, fn=None):
+    """the outcome of the test of `sw` on the edges `succs`, in a form that does not depend on how the test is written:
+    'T'/'F' for a boolean, eq/ne/lt/le/gt/ge for a comparison (operands ordered canonically, so `a < b` and `b > a`
+    agree), the variant names for a match, the value for an integer switch; '' when the edges do not share one outcome"""
+    labs = [sw.labels.get(s) for s in succs]
+    if not labs:
+        return ''
+    if sw.kind in ('bool', 'cmp'):
+        if any(l is None for l in labs) or len(set(labs)) != 1:
+            return ''
+        v = labs[0]
+        c = cmp_of(sw)
+        if c is None:
+            return 'T' if v else 'F'
+        reg = set(_ORD[c[0]]) if v else set(_ORD_ALL - _ORD[c[0]])
+        a = '+'.join(sorted(predicate_atoms(sw, fn, True, only=c[1])))
+        b = '+'.join(sorted(predicate_atoms(sw, fn, True, only=c[2])))
+        if a > b:
+            reg = {_ORD_FLIP[x] for x in reg}
+        elif a == b and reg not in ({'eq'}, {'lt', 'gt'}):
+            return ''
+        return _REGION_NAME.get(frozenset(reg), '')
+    if sw.kind == 'variant':
+        names = set()
+        for l in labs:
+            names |= set(l or ())
+        return '/'.join(sorted(names))
+    if sw.kind == 'int':
+        return '/'.join(sorted(str(l) for l in set(labs)))
+    return ''
 
 
 def dominating_atoms(facts, fn, site):
@@ -1717,11 +1756,14 @@ def control_atoms(facts, fn, site):
     return atoms
 
 
-def control_terms(facts, fn, site):
+def control_terms(facts, fn, site, polar=True):
     """like control_atoms, but one term per controlling switch ('a&b' = the atoms that switch tests), as a sorted
-    multiset — so dropping one conjunct is visible even when the same field is also tested elsewhere"""
+    multiset — so dropping one conjunct is visible even when the same field is also tested elsewhere.  polar=True appends
+    '@<outcome>': the outcome of the test (edge_polarity) on the edges after which the site is inevitable, or else on the
+    edges from which it is still reachable — so an inverted test (== for !=, a dropped `!`) changes the term"""
     sws = all_switches(facts, fn)
     terms = []
+    pd = postdominators(fn) if polar else None
     for a in control_switches(facts, fn, site):
         sw = sws.get(a)
         if sw is None:
@@ -1731,5 +1773,18 @@ def control_terms(facts, fn, site):
             continue
         at = predicate_atoms(sw, fn, rich=True)
         if at:
-            terms.append('&'.join(sorted(at)))
+            term = '&'.join(sorted(at))
+            if polar:
+                ss = [s for s in sw.labels if s in pd]
+                inev = [s for s in ss if site in pd[s]]
+                pol = ''
+                if inev and len(inev) < len(ss):
+                    pol = edge_polarity(sw, inev, fn)
+                else:
+                    reach = [s for s in ss if site in fn.reachable([s], cut_blocks=[a])]
+                    if reach and len(reach) < len(ss):
+                        pol = edge_polarity(sw, reach, fn)
+                if pol:
+                    term += '@' + pol
+            terms.append(term)
     return sorted(terms)
